@@ -56,7 +56,7 @@ def cfg(tier):
 
 
 def budget(tier):
-    return 3000 if tier == "quick" else 150000
+    return 6000 if tier == "quick" else 150000
 
 
 def strategy(tier):
